@@ -47,7 +47,9 @@ impl<K: ExpiredKey<E>, E: Expiration, V: Copy> KeyExpTree<K, E, V> {
 
         let height = self.height();
         let mut stack = Vec::with_capacity(height);
-        let mut list = Vec::with_capacity(8 << height);
+        // every slot is the sentinel, on the free list or holds exactly one entry
+        let count = self.store.buffer.len() - 1 - self.store.unused.len();
+        let mut list = Vec::with_capacity(count);
 
         if self.root == EMPTY_REF {
             return list;
